@@ -14,13 +14,26 @@ def revcomp(s):
 	return "".join(COMP.get(c, "N") for c in reversed(s))
 
 
-def write_fasta(path, chroms, width=60, newline="\n", keep_index=False):
+def fmtnum(v, style="repr"):
+	"""Text of a probability in a MEME file; float(fmtnum(v)) is what the file states."""
+	v = float(v)
+	if style == "e":
+		return "%.6e" % v
+	if style == "f6":
+		return "%.6f" % v
+	if style == "int" and v == int(v):
+		return "%d" % int(v)
+	return repr(v)
+
+
+def write_fasta(path, chroms, width=60, newline="\n", keep_index=False, descriptions=False):
 	"""chroms: list of (name, sequence string).  keep_index: leave an existing
 	.fai in place and make the FASTA 10 s newer than it (a regenerated genome
 	next to a stale index, which pyfaidx rebuilds by default)."""
 	with open(path, "w", newline="") as f:
 		for name, seq in chroms:
-			f.write(">" + name + newline)
+			f.write(">" + name + (" len=%d some description" % len(seq) if descriptions
+				else "") + newline)
 			for i in range(0, len(seq), width):
 				f.write(seq[i:i + width] + newline)
 	fai = path + ".fai"
@@ -60,8 +73,8 @@ def meme_text(motifs, layout=None):
 			head += " nsites= 20 E= 0"
 		lines.append(head)
 		for j in range(w):
-			lines.append(lo["indent"] + " ".join(repr(float(M[i, j])) for i in range(4))
-				+ lo["trailing_blanks"])
+			lines.append(lo["indent"] + lo.get("sep", " ").join(fmtnum(M[i, j],
+				lo.get("numfmt", "repr")) for i in range(4)) + lo["trailing_blanks"])
 		last = mi == len(motifs) - 1
 		nblank = lo["blank_after_matrix"]
 		if last and lo["blank_after_last"] is not None:
